@@ -24,7 +24,7 @@ RULE = (
     "first task also has dependent sub-request records of another operation type, the second task's latency / processing_time exist only "
     "for part of its records), "
     "success flags from every (ok, failed, warm-up ok, warm-up failed) count vector in 0..2, and structured streams at the "
-    "percentile-set boundaries 9, 10, 99, 100, 999, 1000, 9999, 10000 with and without warm-up records. Each case: calculate results, "
+    "percentile-set boundaries 9, 10, 99, 100, 999, 1000, 9999, 10000 and at 10001, 20001 with and without warm-up records. Each case: calculate results, "
     "compare with the reference, repeat without the warm-up records (differential), store and re-load race.json. Cluster-level "
     "results: 30 index-stats / GC / segment / size / ingest metrics (with per-shard values where the telemetry device records them) "
     "present all, none, each alone, all but each (thorough: every pair) x 1..3 values each: computed result = documented aggregation, "
@@ -37,7 +37,8 @@ ASSUMPTIONS = [
 ]
 
 VALUES = [0, 0.5, 1, 2, 3.25, 100]
-BOUNDARY = [9, 10, 99, 100, 999, 1000, 9999, 10000]
+# (10001, 20001: the rank of the 99.99th percentile is a whole number only up to rounding: 0.9999 * 10000 = 9998.999999999998)
+BOUNDARY = [9, 10, 99, 100, 999, 1000, 9999, 10000, 10001, 20001]
 TASKS = [("search-cold", "search", "search"), ("search", "search", "search")]  # (task name, operation name, operation type)
 RACE_TS = datetime.datetime(2016, 1, 31)
 
@@ -342,7 +343,7 @@ def structured(n, variant):
 def boundary_cases(tier):
     for n in BOUNDARY:
         if tier == "quick" and n > 1000:
-            variants = (1,)
+            variants = (1,) if n <= 10000 else (0,)
         else:
             variants = (0, 1, 2)
         for variant in variants:
